@@ -154,7 +154,7 @@ def run(tier):
         ev.tlc(r, "dev not " + chk)
         devres["missing:" + chk] = bool(r["violated"])
     # link graphs: FsTree NeverHangs (with the pre-fix cycle check as deviation)
-    write_cfg(cfg, spec="Spec", constants={"MaxLen": 3, "Emit": False, "LinkFlagsDropped": False, "CycleCheckStartOnly": True}, invariants=["NeverHangs"], deadlock=False)
+    write_cfg(cfg, spec="Spec", constants={"MaxLen": 3, "Emit": False, "LinkFlagsDropped": False, "CycleCheckStartOnly": True, "GlobLinkPrefixDropped": False}, invariants=["NeverHangs"], deadlock=False)
     r = run_tlc("FsTree", cfg, workers=16, timeout=1800, heap="16g")
     ev.tlc(r, "dev FsTree CycleCheckStartOnly")
     devres["CycleCheckStartOnly(pre-fix tree)"] = bool(r["violated"])
@@ -203,6 +203,47 @@ def run(tier):
             elif (res == "image") != (plans[i]["outcome"] == "image"):
                 drift += 1
     ev.set("tierB_outcome_differs_from_model(informational)", drift)
+    # ---- every sequence of <=3 GNU / PAX extension records in front of an entry (spec/TarSem.tla, AnySeq) -------
+    TS = {"MaxExt": 3, "Emit": False, "Pairs": False, "NVals": 1, "AnySeq": True, "SetByPaxSurvivesClear": False, "WriterXLast": False}
+    write_cfg(cfg, spec="Spec", constants=TS, invariants=["NoNullDeref", "BitsAgree"], deadlock=False)
+    r = run_tlc("TarSem", cfg, workers=16, timeout=900, heap="8g")
+    ev.tlc(r, "TarSem any sequence of <=3 extension records")
+    if not r["ok"]:
+        print("MODEL-FAILURE: TarSem violates %s" % r["violated"])
+        ev.write()
+        return 2
+    write_cfg(cfg, spec="Spec", constants=dict(TS, SetByPaxSurvivesClear=True), invariants=["NoNullDeref"], deadlock=False)
+    r = run_tlc("TarSem", cfg, workers=8, timeout=900, heap="8g")
+    ev.tlc(r, "dev TarSem SetByPaxSurvivesClear")
+    if r["violated"] != "NoNullDeref":
+        print("SELF-CHECK-FAILED: SetByPaxSurvivesClear without counterexample")
+        ev.write()
+        return 2
+    write_cfg(cfg, spec="Spec", constants=dict(TS, Emit=True), invariants=["EmitOK"], deadlock=False)
+    r = run_tlc("TarSem", cfg, workers=4, timeout=900, heap="8g")
+    seqs = bpbind.parse_emitted(r["out"])
+    ev.set("extension_sequences_emitted", len(seqs))
+    short = [x for x in seqs if len(x["e1"]["exts"]) <= 2]
+    long_ = [x for x in seqs if len(x["e1"]["exts"]) > 2]
+    rng.shuffle(long_)
+    seqs = short + long_[:(800 if tier == "quick" else len(long_))]
+    import c04
+
+    def doseq(i):
+        arch = c04.check_sequence_archive(seqs[i])
+        out = "%s/x%d.sqfs" % (work, i)
+        return i, run_packer(tools, [tools + "/tar2sqfs", "-q", "-f", "-c", "gzip", out], out, stdin=arch), arch
+
+    with ThreadPoolExecutor(max_workers=16) as ex:
+        for i, (res, err), arch in ex.map(doseq, range(len(seqs))):
+            evaluations += 1
+            nontrivial.add("ext" + json.dumps(seqs[i]["e1"], sort_keys=True))
+            if res in ("hang", "sanitizer", "signal", "leftover", "invalid-image"):
+                recs = [x["t"] + ("(path)" if x.get("name") else "") + ("(linkpath)" if x.get("link") else "") for x in seqs[i]["e1"]["exts"]]
+                f = "%s/badx_%d.tar" % (work, i)
+                open(f, "wb").write(arch)
+                rep.violation("tar2sqfs-%s-extseq" % res, "tar2sqfs on a %s entry preceded by extension records %s: %s %s" % (seqs[i]["e1"]["kind"], recs, res, err[:150]),
+                              artefact=f, data={"entry": seqs[i]["e1"]})
     # ---- all hard-link graphs over 4 nodes as tar archives ---------------------------------------------
     N = 3 if tier == "quick" else 4
     graphs = list(itertools.product(range(N + 1), repeat=N))      # node i: 0 = regular file, j = hard link to node j
